@@ -243,6 +243,8 @@ structure Th where
   curF : Fid := 0
   res : Res := .none
   seq0 : Nat := 0                   -- ghost: `seq t` when the current op was called
+  z0 : Bool := false                -- ghost: this call has read `sender_count == 0`
+  ze : Bool := false                -- ghost: the current/last `deq_once` stopped at an EMPTY slot / absent chunk
   hb : Bool := false                -- this call keeps sender handle `h` busy
   rb : Bool := false                -- this call keeps the receiver handle busy
   deriving Repr
@@ -426,17 +428,23 @@ def chkOpen (x : Th) : Th :=
 /-- `notify_receiver` finished (end of `write_slot`): back in `try_send_now` -/
 def nrDone (x : Th) : Th := if x.okc then tsOk x else { x with pc := .tG }
 
-/-- `finish_sync_send` / `unregister_async_send` / `finish_sync_recv` / `unregister_async_recv` done -/
-def finDone (x : Th) : Th :=
+/-- `finish_sync_send` / `unregister_async_send` done -/
+def finDoneS (x : Th) : Th :=
   match x.fin with
-  | .retOk => retWith x .ok
   | .retClosed => retWith x .errClosed
+  | .dropFut => { x with pc := .ret }
+  | _ => retWith x .ok
+
+/-- `finish_sync_recv` / `unregister_async_recv` done -/
+def finDoneR (x : Th) : Th :=
+  match x.fin with
   | .retGot => retWith x (match x.got with | some y => .okv y.v | none => .none)
   | .retDisc => retWith x .errDisc
   | .recvLoop => { x with pc := .rFlagReset }
   | .dropFut => { x with pc := .ret }
+  | _ => retWith x .none
 
-def deqCall (x : Th) (site : DqSite) : Th := { x with pc := .dLock, dq := site, got := none, dres := 0 }
+def deqCall (x : Th) (site : DqSite) : Th := { x with pc := .dLock, dq := site, got := none, dres := 0, ze := false }
 def flushCall (x : Th) (site : FlSite) : Th := { x with pc := .fLock, fl := site }
 
 def gotRes (x : Th) : Res := match x.got with | some y => .okv y.v | none => .none
@@ -474,11 +482,11 @@ def deqDone (x : Th) : Th :=
 /-- `senders_alive()` evaluated after an `Empty` (`n` = the count read) -/
 def scDone (x : Th) (n : Nat) : Th :=
   match x.dq with
-  | .recv => if n = 0 then deqCall x .recvStrag else flushCall x .recvWait
-  | .tryRecv => if n = 0 then deqCall x .tryStrag else flushCall x .tryEmpty
-  | .rt0 => if n = 0 then deqCall x .rt0Strag else flushCall x .rt0
-  | .pr1 => if n = 0 then deqCall x .pr1Strag else flushCall x .pr1
-  | .pr2 => if n = 0 then deqCall x .pr2Strag else retPending x
+  | .recv => if n = 0 then deqCall { x with z0 := true } .recvStrag else flushCall x .recvWait
+  | .tryRecv => if n = 0 then deqCall { x with z0 := true } .tryStrag else flushCall x .tryEmpty
+  | .rt0 => if n = 0 then deqCall { x with z0 := true } .rt0Strag else flushCall x .rt0
+  | .pr1 => if n = 0 then deqCall { x with z0 := true } .pr1Strag else flushCall x .pr1
+  | .pr2 => if n = 0 then deqCall { x with z0 := true } .pr2Strag else retPending x
   | .probe => if n = 0 then { x with pc := .lG, pr := .isClosedR } else retWith x (.b false)
   | _ => retWith x .none
 
@@ -537,7 +545,9 @@ def wkOf (t : Tid) (x : Th) : Wk := if x.blockOn then .task t else .cnt x.curF
 
 /-- entry of a (re-)poll of the current future -/
 def pollEntry (x : Th) : Th :=
-  if x.hb then { x with pc := .cClosed, chk := .pollS } else { x with pc := .rClosed }
+  if x.hb then { x with pc := .cClosed, chk := .pollS }
+  else if x.rb then { x with pc := .rClosed }
+  else retWith x .none
 
 /-! One definition per program counter (`nx<Pc>`), dispatched by `next`. -/
 def nxIdle (c : Cfg) (s : State) (t : Tid) : Option (Act × State) :=
@@ -795,13 +805,13 @@ def nxFnCnt (c : Cfg) (s : State) (t : Tid) : Option (Act × State) :=
 def nxFnUnlock (c : Cfg) (s : State) (t : Tid) : Option (Act × State) :=
   let x := s.th t
   let W : State → Th → State := fun s' x' => { s' with th := upd s'.th t x' }
-  some (aUnlock .mSS, W { s with mSS := none } (if x.rm then finDone x else { x with pc := .fnFlagLd }))
+  some (aUnlock .mSS, W { s with mSS := none } (if x.rm then finDoneS x else { x with pc := .fnFlagLd }))
 
 def nxFnFlagLd (c : Cfg) (s : State) (t : Tid) : Option (Act × State) :=
   let x := s.th t
   let W : State → Th → State := fun s' x' => { s' with th := upd s'.th t x' }
   let b := s.flag t x.fg
-  some (aLoad (.flag t x.fg) .acquire (b2n b), W s (if b then finDone x else { x with pc := .fnSpin }))
+  some (aLoad (.flag t x.fg) .acquire (b2n b), W s (if b then finDoneS x else { x with pc := .fnSpin }))
 
 def nxFnSpin (c : Cfg) (s : State) (t : Tid) : Option (Act × State) :=
   let x := s.th t
@@ -827,7 +837,7 @@ def nxUaCnt (c : Cfg) (s : State) (t : Tid) : Option (Act × State) :=
 def nxUaUnlock (c : Cfg) (s : State) (t : Tid) : Option (Act × State) :=
   let x := s.th t
   let W : State → Th → State := fun s' x' => { s' with th := upd s'.th t x' }
-  some (aUnlock .mAS, W { s with mAS := none } (finDone { x with myId := none }))
+  some (aUnlock .mAS, W { s with mAS := none } (finDoneS { x with myId := none }))
 
 -- register_async_send
 def nxRaLock (c : Cfg) (s : State) (t : Tid) : Option (Act × State) :=
@@ -1068,7 +1078,7 @@ def nxDId (c : Cfg) (s : State) (t : Tid) : Option (Act × State) :=
   let e := s.hCid % c.nChunks
   let cur := s.tblId e
   some (aLoad (.tblId e) .acquire cur,
-        W s (if cur ≠ s.hCid then { x with pc := .dDr }
+        W s (if cur ≠ s.hCid then { x with pc := .dDr, ze := true }
              else if s.hIdx = c.chunkCap then { x with pc := .dRetire } else { x with pc := .dSlot }))
 
 def nxDRetire (c : Cfg) (s : State) (t : Tid) : Option (Act × State) :=
@@ -1085,7 +1095,7 @@ def nxDSlot (c : Cfg) (s : State) (t : Tid) : Option (Act × State) :=
   match s.slot tk with
   | .set y => some (aLoad o .acquire 1, W s { x with pc := .dEmpty, got := some y, skipd := false })
   | .skip => some (aLoad o .acquire 2, W s { x with pc := .dEmpty, skipd := true })
-  | .empty => some (aLoad o .acquire 0, W s { x with pc := .dDr })
+  | .empty => some (aLoad o .acquire 0, W s { x with pc := .dDr, ze := true })
 
 def nxDEmpty (c : Cfg) (s : State) (t : Tid) : Option (Act × State) :=
   let x := s.th t
@@ -1298,13 +1308,13 @@ def nxFrUnlock (c : Cfg) (s : State) (t : Tid) : Option (Act × State) :=
 def nxFrCnt (c : Cfg) (s : State) (t : Tid) : Option (Act × State) :=
   let x := s.th t
   let W : State → Th → State := fun s' x' => { s' with th := upd s'.th t x' }
-  some (aStore .srCount .release s.srCount 0, W { s with srCount := 0 } (if x.rm then finDone x else { x with pc := .frFlagLd }))
+  some (aStore .srCount .release s.srCount 0, W { s with srCount := 0 } (if x.rm then finDoneR x else { x with pc := .frFlagLd }))
 
 def nxFrFlagLd (c : Cfg) (s : State) (t : Tid) : Option (Act × State) :=
   let x := s.th t
   let W : State → Th → State := fun s' x' => { s' with th := upd s'.th t x' }
   let b := s.flag t x.fg
-  some (aLoad (.flag t x.fg) .acquire (b2n b), W s (if b then finDone x else { x with pc := .frSpin }))
+  some (aLoad (.flag t x.fg) .acquire (b2n b), W s (if b then finDoneR x else { x with pc := .frSpin }))
 
 def nxFrSpin (c : Cfg) (s : State) (t : Tid) : Option (Act × State) :=
   let x := s.th t
@@ -1356,7 +1366,7 @@ def nxAuUnlock (c : Cfg) (s : State) (t : Tid) : Option (Act × State) :=
 def nxAuCnt (c : Cfg) (s : State) (t : Tid) : Option (Act × State) :=
   let x := s.th t
   let W : State → Th → State := fun s' x' => { s' with th := upd s'.th t x' }
-  some (aStore .arCount .release s.arCount 0, W { s with arCount := 0 } (finDone { x with reg := false }))
+  some (aStore .arCount .release s.arCount 0, W { s with arCount := 0 } (finDoneR { x with reg := false }))
 
 -- probes
 def nxLG (c : Cfg) (s : State) (t : Tid) : Option (Act × State) :=
@@ -1510,6 +1520,7 @@ def opHandle (s : State) : Op → Option Hid
 def opRecv (s : State) : Op → Bool
   | .recv | .tryRecv | .recvT0 | .recvA | .closeR | .dropR | .isClosedR => true
   | .poll f => (s.fut f).kind = .recv
+  | .dropFut f => (s.fut f).kind = .recv
   | _ => false
 
 /-- harness/ownership guard of a call -/
@@ -1580,19 +1591,22 @@ def callWakes (s : State) (op : Op) : Fid → Nat :=
   | .poll f => upd s.wakes f 0
   | _ => s.wakes
 
+/-- the thread record at the start of a call -/
+def callX0 (s : State) (t : Tid) (op : Op) : Th :=
+  { s.th t with op := op, res := .none, seq0 := s.seq t, blockOn := false, got := none, z0 := false, ze := false,
+                hb := (opHandle s op).isSome, h := (opHandle s op).getD 0, rb := opRecv s op }
+
 def stepCall (c : Cfg) (s : State) (t : Tid) : Option (Act × State) :=
   let x := s.th t
   match x.pc, s.prog t with
   | .idle, op :: rest =>
     if callOk s op then
-      let x0 : Th := { x with op := op, res := .none, seq0 := s.seq t, blockOn := false, got := none,
-                              hb := (opHandle s op).isSome, h := (opHandle s op).getD 0, rb := opRecv s op }
       some ({ kind := .call },
             { s with prog := upd s.prog t rest,
                      sBusy := (match opHandle s op with | some h => upd s.sBusy h (some t) | none => s.sBusy),
                      rBusy := if opRecv s op then some t else s.rBusy,
                      fut := callFut s op, wakes := callWakes s op,
-                     th := upd s.th t (callTh c s x x0 op) })
+                     th := upd s.th t (callTh c s x (callX0 s t op) op) })
     else none
   | _, _ => none
 
